@@ -138,13 +138,15 @@ UpdateClauses(ln, s) ==
      <<"NoStaleEnv", Close(ln.etot, ln.efull, TolE)>>,
      \* ... and that number is <psi|H|psi> of the current tensors (before any normalisation)
      <<"TotalEnergyIsExpectation", Close(ln.etot, ln.eud, TolE) /\ ln.eim <= TolE>>,
-     \* inside a sweep the reported total energy is the normalised expectation value whenever nothing was cut
+     \* inside a sweep the reported total energy is the normalised expectation value of the current state
      \* (hasema: the library route psi.H @ ham.apply(psi) was evaluated for this update; the S->C replays evaluate
      \*  it at sweep ends and on the final state only, the dense measurement is always there)
-     <<"ReportedEqualsMeasured", Untrunc(ln, c) => (ln.hasema => Close(ln.etot, ln.ema, TolE)) /\ Close(ln.etot, ln.emd, TolE)>>,
+     \* (a truncating two-site split rescales what it keeps: the total energy is the normalised expectation value
+     \*  after EVERY update)
+     <<"ReportedEqualsMeasured", (ln.hasema => Close(ln.etot, ln.ema, TolE)) /\ Close(ln.etot, ln.emd, TolE)>>,
      <<"RoutesAgree", ln.hasema => Close(ln.ema, ln.emd, TolE)>>,
      <<"Variational", (ln.emd >= s.e0 - TolVar) /\ (ln.hasema => ln.ema >= s.e0 - TolVar)
-                      /\ (Untrunc(ln, c) => (ln.etot >= s.e0 - TolVar /\ ln.eloc >= s.e0 - TolVar))>>,
+                      /\ ln.etot >= s.e0 - TolVar /\ ln.eloc >= s.e0 - TolVar>>,
      \* from one untruncated update to the next neither the local optimum nor the total energy goes up
      \* (ARPACK with 4 Lanczos vectors on the exactly degenerate integer spectra of the classical family, started
      \*  from an exact eigenvector, breaks down and may return an excited level: with the iterative solver the
@@ -152,8 +154,8 @@ UpdateClauses(ln, s) ==
      <<"Monotone", (s.lastE.has /\ (c.exact \/ ~Classical(c))) => mono>>,
      <<"NOTE:MonotoneIterativeSolverOnDegenerateSpectrum", (s.lastE.has /\ ~c.exact /\ Classical(c)) => mono>>,
      <<"BondCap", SeqGE(ln.bonds, 1) /\ (c.bsz = 2 => ln.nb <= s.cap)>>,
-     \* nothing cut => the state stays normalised
-     <<"FullRankKeepsNorm", (Untrunc(ln, c) \/ ln.nb = ln.rmax) => Normed(ln)>>,
+     \* every local update leaves the state normalised (a truncating split renormalises)
+     <<"UpdateKeepsNorm", Normed(ln)>>,
      \* what the protocol model predicts: the blocks are isometric, except in one-site sweeps that were not
      \* re-canonized after the bond expansion (model deviation KF-C10-3)
      <<"NOTE:CanonicalBlocks", ln.pre9 <= TolCanon \/ (c.bsz = 1 /\ ~s.canon)>> >>
